@@ -511,6 +511,11 @@ func (b *Bridge) after(in *hub.Instance, g *bridgeGhost, op engine.Op, pre *view
 				if t := b.tokenByExt(ch, e.Token.ExternalTokenId); t != nil && (g.Delisted[e.RefundChainId+"|"+t.Denom] || g.Delisted[ch+"|"+t.Denom] || g.Delisted["repoint|"+ch+"|"+t.Denom]) {
 					continue // ... or its own token is off the list: there is no denom to refund in
 				}
+				// ... or it was made towards a contract that is not the token's listed one NOW (made while the token had migrated,
+				// and the migration was taken back since): refunded once that listing is back
+				if t := b.tokenByExt(ch, e.Token.ExternalTokenId); t != nil && !g.Delisted["repoint|"+ch+"|"+t.Denom] && !strings.EqualFold(t.ExtID, e.Token.ExternalTokenId) && !(g.Delisted["dual|"+ch+"|"+t.Denom] && strings.EqualFold(hub.HexAddr("second-"+ch+"|"+t.Denom), e.Token.ExternalTokenId)) {
+					continue
+				}
 				// the age of a transfer counts from its creation (the reference's own record of it), whatever the entry says now
 				created := int64(e.CreatedAt)
 				if x := g.Xfers[fmt.Sprintf("%s/%d", ch, e.Id)]; x != nil && x.Created < created {
